@@ -135,6 +135,12 @@ class M(Pat):
 
     def m(self, ctx, e):
         e = strip(e)
+        if isinstance(e, dict) and e.get('k') == 'mcall' and e.get('name') != self.name and e.get('def'):
+            # renamed private method: compare with the reference name
+            rp = ctx.facts.ref_path(e['def'])
+            if rp != e['def'] and rp.rsplit('::', 1)[-1] == self.name:
+                e = dict(e)
+                e['name'] = self.name
         if not (isinstance(e, dict) and e.get('k') == 'mcall' and e.get('name') == self.name):
             # UFCS form: Type::name(recv, args)
             if isinstance(e, dict) and e.get('k') == 'call' and e['f'].get('k') == 'path' and e['f'].get('name') == self.name \
@@ -163,7 +169,7 @@ class C(Pat):
         e = strip(e)
         if not (isinstance(e, dict) and e.get('k') == 'call' and e['f'].get('k') == 'path'):
             return False
-        full = e.get('full', '') + ' ' + e['f'].get('def', '')
+        full = e.get('full', '') + ' ' + e['f'].get('def', '') + ' ' + ctx.facts.ref_path(e['f'].get('def', '') or '')
         if self.name not in full:
             return False
         if len(e['args']) != len(self.args):
@@ -239,7 +245,8 @@ class CALLARG(Pat):
             return False
         if e.get('k') == 'mcall' and self.name in e.get('name', ''):
             return any(self.p.m(ctx, a) for a in [e['recv']] + e['args'])
-        if e.get('k') == 'call' and e['f'].get('k') == 'path' and self.name in (e['f'].get('name') or ''):
+        if e.get('k') == 'call' and e['f'].get('k') == 'path' and (
+                self.name in (e['f'].get('name') or '') or self.name in ctx.facts.ref_path(e['f'].get('def') or '')):
             return any(self.p.m(ctx, a) for a in e['args'])
         return False
 
